@@ -379,8 +379,14 @@ def lexer_eval(ctx, R):
         if name and name.startswith("self.") and mangle(L.name, name[5:]) in L.methods:
             return fd.Inline(L.methods[mangle(L.name, name[5:])])
         return None
+    env0 = {init.params[1]: fd.Const(list(lr))}
+    cev = Evaluator(ctx.program, R.pmod, L)
+    for a_, v_ in L.attrs.items():
+        cv_ = cev.eval(v_)
+        if cv_ is not TOP and isinstance(cv_, (int, str, bytes, tuple, frozenset, bool)):
+            env0["%s.%s" % (init.params[0], a_)] = fd.Const(cv_)  # class-level constants read through the instance
     try:
-        ps = fd.Interp(init.node, L.name, oracle, resolve=resolve, loop_unroll=len(lr) + 2).run({init.params[1]: fd.Const(list(lr))})
+        ps = fd.Interp(init.node, L.name, oracle, resolve=resolve, loop_unroll=len(lr) + 2).run(env0)
     except fd.TooManyPaths:
         return None
     if len(ps) != 1 or ps[0].kind != "return":
@@ -445,6 +451,13 @@ def lexer_eval(ctx, R):
         except fd.TooManyPaths:
             return None
         if not paths:
+            return None
+        # the lexer is deterministic: two paths that differ in something else than the consumer's replay decision mean that the
+        # interpreter had to guess a value
+        sigs = [tuple(i for i, x in enumerate(p.events) if x[0] == "rewind") + (sum(1 for x in p.events if x[0] == "yield" and False),) for p in paths]
+        if len(set(sigs)) != len(sigs) and len(paths) > 1:
+            return None
+        if any(isinstance(x[1], fd.Unknown) for p in paths for x in p.events if x[0] == "yield"):
             return None
         for p in paths:
             cur = 0
